@@ -317,6 +317,9 @@ def bom_case(rep, rng):
 			net.add_edge(1, 3); net.add_edge(2, 3)
 			p10, p11, p20 = SupplyChainProduct(10), SupplyChainProduct(11), SupplyChainProduct(20)
 			s1.add_products([p10, p11]); s2.add_product(p20)
+			shared = rng.random() < .4
+			if shared:
+				s2.add_product(p10)           # the same product carried by both suppliers
 			fa, fb = SupplyChainProduct(30), SupplyChainProduct(31)
 			bom = {30: {}, 31: {}}
 			for fp, po in ((30, fa), (31, fb)):
@@ -341,33 +344,37 @@ def bom_case(rep, rng):
 					elif act == 'remove' and len(bom[fp]) > 1:
 						rm = rng.choice(sorted(bom[fp]))
 						po.set_bill_of_materials(raw_material=rm, num_needed=0); bom[fp].pop(rm)
-			sup = {10: 1, 11: 1, 20: 2}
-			prods_at = {1: [10, 11], 2: [20]}
+			prods_at = {1: [10, 11], 2: [20] + ([10] if shared else [])}
+			# documented network-BOM rule, per (predecessor, raw material): a predecessor none of whose products appears in any BOM of the
+			# node's products supplies 1 unit of each of its products per unit of every product of the node; otherwise the BOM number
+			related = {pred: any(rm in prods for q in bom for rm in bom[q]) for pred, prods in prods_at.items()}
 			for fp in bom:
-				# documented network-BOM rule: a predecessor none of whose products appears in any BOM of the node's
-				# products supplies 1 unit of each of its products per unit of every product of the node
-				nb = {}
-				for pred, prods in prods_at.items():
-					related = any(rm in prods for q in bom for rm in bom[q])
-					for rm in prods:
-						nb[rm] = bom[fp].get(rm, 0) if related else 1
-				want_rms = sorted(rm for rm, v in nb.items() if v > 0)
+				nb = {(pred, rm): (bom[fp].get(rm, 0) if related[pred] else 1) for pred, prods in prods_at.items() for rm in prods}
+				want_rms = sorted({rm for (pred, rm), v in nb.items() if v > 0})
 				rms = sorted(f.raw_materials_by_product(fp, return_indices=True, network_BOM=True))
 				if rms != want_rms:
 					bad.append('raw_materials_by_product(%s) = %s, network BOM rule says %s' % (fp, rms, want_rms))
+				for (pred, rm), v in nb.items():
+					if f.NBOM(product=fp, predecessor=pred, raw_material=rm) != v:
+						bad.append('NBOM(%s,%s,%s) = %s != %s' % (fp, pred, rm, f.NBOM(product=fp, predecessor=pred, raw_material=rm), v))
 				for rm in want_rms:
-					if f.NBOM(product=fp, predecessor=sup[rm], raw_material=rm) != nb[rm]:
-						bad.append('NBOM(%s,%s,%s) != %s' % (fp, sup[rm], rm, nb[rm]))
-					if sup[rm] not in f.raw_material_suppliers_by_raw_material(rm, return_indices=True, network_BOM=True):
-						bad.append('supplier of raw material %s missing' % rm)
 					if fp not in f.products_by_raw_material(rm, return_indices=True):
 						bad.append('products_by_raw_material(%s) misses %s' % (rm, fp))
-					cust = net.nodes_by_index[sup[rm]].customers_by_product(product=rm, return_indices=True, network_BOM=True)
-					if 3 not in cust:
-						bad.append('customers_by_product(%s) at supplier %s misses the factory' % (rm, sup[rm]))
 				pairs = sorted(f.supplier_raw_material_pairs_by_product(fp, return_indices=True, network_BOM=True))
-				if pairs != sorted((sup[rm], rm) for rm in want_rms):
-					bad.append('supplier/raw-material pairs of %s = %s' % (fp, pairs))
+				if pairs != sorted((pred, rm) for (pred, rm), v in nb.items() if v > 0):
+					bad.append('supplier/raw-material pairs of %s = %s, network BOM rule says %s' % (fp, pairs, sorted((pred, rm) for (pred, rm), v in nb.items() if v > 0)))
+			# upstream and downstream views mirror each other, for every (predecessor, product it carries)
+			for pred, prods in prods_at.items():
+				for rm in prods:
+					supplies = any((bom[fp].get(rm, 0) if related[pred] else 1) > 0 for fp in bom)
+					anyone = any((bom[fp].get(rm, 0) if related[q] else 1) > 0 for fp in bom for q, pr in prods_at.items() if rm in pr)
+					sups = f.raw_material_suppliers_by_raw_material(rm, return_indices=True, network_BOM=True) if anyone else []
+					if (pred in sups) != supplies:
+						bad.append('raw_material_suppliers_by_raw_material(%s) = %s but predecessor %s %s it under the network BOM' % (rm, sups, pred, 'supplies' if supplies else 'does not supply'))
+					cust = net.nodes_by_index[pred].customers_by_product(product=rm, return_indices=True, network_BOM=True)
+					if (3 in cust) != supplies:
+						bad.append('customers_by_product(%s) at node %s = %s but the factory %s product %s from node %s' % (
+							rm, pred, cust, 'gets' if supplies else 'does not get', rm, pred))
 			bad += coherent_py(net)
 		except Exception as e:
 			bad.append('raised %s: %s' % (err_enum(e), str(e)[:150]))
@@ -389,7 +396,7 @@ def run(rep, drv):
 		builders_case(rep, rng)
 	for k in range(800 if th else 120):
 		levels_case(rep, drv, rng)
-	for k in range(300 if th else 60):
+	for k in range(800 if th else 160):
 		bom_case(rep, rng)
 
 
